@@ -6,6 +6,7 @@ import Witverif.Generated.CastExprs
     s <list> <idx> <hex input> <dbg 0|1>           evaluate scalar entry: `<holds 0|1>\t<actual>\t<expected>`
     c <list> <idx> <hex input> <hex junk>          evaluate cast entry against Spec.joinConv
     r <fwd list> <i> <back list> <j> <hex input> <hex junk1> <hex junk2>     round trip
+    spec <lang> <wty> <lower|lift> <flat|mem> <hex input>     the value Spec prescribes (or `undefined`)
     n s | n c                                      list names with their lengths
 
 Values print as `ok:<ty>:<hex bits>` | `trap` | `err:<hex msg>` | `none`. -/
@@ -66,6 +67,22 @@ def handle (line : String) : String :=
       let (h, s, r) := roundTripAt f b (BitVec.ofNat 64 n) (BitVec.ofNat 64 a1) (BitVec.ofNat 64 a2)
       b01 h ++ "\t" ++ showRes s ++ "\t" ++ showRes r
     | _, _, _, _, _ => "bad-request"
+  | ["spec", l, t, d, p, x] =>
+    -- the expected value alone (used when an emitted snippet could not be translated but can be run natively)
+    let lang? : Option Lang := [Lang.rust, .c, .cpp, .csharp, .go, .moonbit, .d].find? (·.name == l)
+    let wty? : Option Spec.WTy := [Spec.WTy.bool, .s8, .u8, .s16, .u16, .s32, .u32, .s64, .u64, .f32, .f64, .char].find? (·.name == t)
+    match lang?, wty?, hexNat x with
+    | some lang, some wty, some n =>
+      let e : Entry := { lang := lang, wty := wty, dir := if d == "lower" then .lower else .lift,
+                         pos := if p == "flat" then .flat else .mem, side := "", instr := "", opTy := none, dstTy := none,
+                         expr := .trap, src := "" }
+      let (_, _, b) := e.evalAt (BitVec.ofNat 64 n) false
+      let defined := match e.dir, e.pos with
+        | .lower, _ => wty.valid ((BitVec.ofNat 64 n).setWidth _)
+        | .lift, .flat => Spec.liftDefined wty ((BitVec.ofNat 64 n).setWidth _)
+        | .lift, .mem => Spec.loadDefined wty ((BitVec.ofNat 64 n).setWidth _)
+      if defined then showRes b else "undefined"
+    | _, _, _ => "bad-request"
   | ["n", "s"] => " ".intercalate (ScalarExprs.table.map fun p => p.1 ++ ":" ++ toString p.2.length)
   | ["n", "c"] => " ".intercalate (CastExprs.table.map fun p => p.1 ++ ":" ++ toString p.2.length)
   | _ => "bad-request"
